@@ -23,6 +23,7 @@ def genTables : Tables :=
     introTable := Gen.introTable, locateTable := Gen.locateTable, metaLiteral := Gen.metaContainerLiteral,
     sdlEmptyTokenSpins := Gen.sdlEmptyTokenSpins,
     exeVarTypeOptional := Gen.exeVarTypeOptional,
-    opFallbackAnyName := Gen.opFallbackAnyName }
+    opFallbackAnyName := Gen.opFallbackAnyName,
+    fieldPosAfterLookahead := Gen.fieldPosAfterLookahead }
 
 def main (args : List String) : IO Unit := run genTables args
